@@ -11,8 +11,13 @@ PROP_FILES = ["Properties_C14.v"]
 def run(ctx):
     vlib.build(ctx, PROP_FILES, variants=("plain",))
     C05_walk.run_walk(ctx, parts=("log",), with_reader=False)
-    ctx.cov["rule"] = ("writer programs as C05; the complete interposed sequence of backend write(2)/ftruncate calls of each run is fed to the extracted verified "
-                       "checker wo_check_log (strict, including payload_prev_length); distinct = script")
+    # tie of the byte-exact writer model (coq/WriterModel.v): its complete write log must equal the implementation's
+    import WM
+    WM.run_wm(ctx, n=60 if ctx.tier == "quick" else 800)
+    ctx.cov["rule"] = ("(a) writer programs as C05; the complete interposed sequence of backend write(2)/ftruncate calls of each run is fed to the extracted verified "
+                       "checker wo_check_log (strict, including payload_prev_length); "
+                       "(b) WM.gen_case programs: the write log (every truncate/write/fsync with offset and bytes) and every return code produced by the extracted "
+                       "byte-exact writer model coq/WriterModel.v are compared with the implementation's; distinct = script")
     if ctx.tier == "thorough":
         vlib.coqchk(ctx, ["Properties_C14"])
     return vlib.finish(ctx, "proof", "make -C /verif/coq -f Makefile.coq Properties_C14.vo; coqc -Q . JLS Properties_C14.v",
